@@ -91,7 +91,7 @@ inductive Res (α : Type) where
   | err (e : Err)
   | panic (site : String)
   | fuel
-deriving Repr, Inhabited
+deriving Repr, Inhabited, DecidableEq
 
 namespace Res
 
@@ -112,6 +112,21 @@ instance : Monad Res where
     ((Res.panic s : Res α) >>= f) = .panic s := rfl
 @[simp] theorem bind_fuel {α β} (f : α → Res β) : ((Res.fuel : Res α) >>= f) = .fuel := rfl
 @[simp] theorem pure_eq {α} (a : α) : (pure a : Res α) = .ok a := rfl
+
+theorem bind_eq_ok {α β} {m : Res α} {f : α → Res β} {b : β} :
+    (m >>= f) = .ok b ↔ ∃ a, m = .ok a ∧ f a = .ok b := by
+  cases m <;> simp [bind]
+
+theorem bind_eq_ok' {α β} {m : Res α} {f : α → Res β} {b : β} :
+    Res.bind m f = .ok b ↔ ∃ a, m = .ok a ∧ f a = .ok b := by
+  cases m <;> simp [Res.bind]
+
+/-- normalise a hypothesis about a `Res` computation: zeta/beta reduce the `do` join points,
+resolve binds on constructors. -/
+macro "res_norm" " at " h:ident : tactic =>
+  `(tactic| (try dsimp only at $h:ident
+             try simp only [Res.bind_ok, Res.bind_err, Res.bind_panic, Res.bind_fuel, Res.pure_eq, pure,
+                            Res.ok.injEq, Prod.mk.injEq, reduceCtorEq] at $h:ident))
 
 def isOk {α} : Res α → Bool
   | .ok _ => true
